@@ -330,7 +330,37 @@ def py_machine(v):
     return dict(ok=ok, err_line=(err + 1) if err is not None else None, vars=store, log=log)
 
 
+def lemma_panel():
+    """concrete runs used to confirm a failed step lemma natively (the verdict came from the solver): every result kind at the
+    first and at a later iteration, with and without error handler, over a program with labels, outputs and a reference to x"""
+    script = ':a x = c k\ny = c ${x}\n:b c k\nx =\ny = c k'
+    cont = {'kind': 'continue', 'output': 'v'}
+    kinds = [{'kind': 'continue'}, cont, {'kind': 'goto_label', 'label': ':b', 'output': '1'}, {'kind': 'goto_label', 'label': ':a'}, {'kind': 'goto_label', 'label': ':zz'},
+             {'kind': 'goto_line', 'line': 2, 'output': '7'}, {'kind': 'goto_line', 'line': 9}, {'kind': 'goto_line', 'line': 0}, {'kind': 'error', 'message': 'e1'},
+             {'kind': 'crash', 'message': 'e2'}, {'kind': 'exit'}, {'kind': 'exit', 'output': '0'}, {'kind': 'exit', 'output': '7'}, {'kind': 'exit', 'output': 'v'}]
+    oes = [{'kind': 'continue'}, {'kind': 'exit'}, {'kind': 'crash', 'message': 'e2'}, {'kind': 'error', 'message': 'e1'}]
+    J = 6; cases = []
+    for pos in (0, 1, 2):
+        for k in kinds:
+            for has in ((False, True) if k['kind'] == 'error' else (False,)):
+                for oe in (oes if has else oes[:1]):
+                    res = [dict(cont) for _ in range(J)]; res[pos] = dict(k)
+                    if k['kind'].startswith('goto') and pos < J - 1: res[pos + 1] = {'kind': 'exit'}       # ends loops
+                    for j in range(pos + 2, J): res[j] = {'kind': 'exit'}
+                    cases.append(dict(kind='c03', script=script, lines=[1, 2, 3, 4, 5], results=res, on_error_results=[dict(oe) for _ in range(J)], has_on_error=has,
+                                      vars={'x': '0'} if pos else {}, halt=None, n=5, J=J))
+    cases.append(dict(kind='c03', script='x = c k\nnope k\ny = c k', lines=[1, 2, 3], results=[dict(cont)] * 4, on_error_results=[oes[0]] * 4, has_on_error=False, vars={}, halt=None, n=3, J=4))
+    return cases
+
+
 def replayer(v):
+    if v.get('kind') == 'lemma':
+        last = None
+        for case in lemma_panel():
+            got = replayer(case)
+            if got[0]: v['native'] = case.get('native'); v['case'] = {k: x for k, x in case.items() if k not in ('native', 'spec')}; return (True, 'run %r: %s' % (case['results'][:3], got[1]))
+            if got[0] is False: last = got
+        return (False, 'the panel of runs behaves as the abstract machine natively') if last else (None, 'panel not replayable')
     # iteration-indexed results -> invocation-ordered queues for the native scripted commands
     sp = py_machine(v)
     if sp is None: return (None, 'counterexample exceeds the iteration bound')
@@ -407,9 +437,288 @@ def main(tier, seed, pid='C03', halting=False):
         chk.job(job_run, 'run:4lines,6iter', n=4, J=6, halting=halting, pid=pid)
         chk.job(job_run, 'run:5lines,5iter', n=5, J=5, halting=halting, pid=pid)
         chk.bounds = dict(programs='<= 3 lines x 7 iterations, <= 4 x 6, <= 5 x 5')
+    N = 5 if tier == 'quick' else 8
+    chk.job(job_runner_step, 'step:run_instructions lemma', n=N, pid=pid)
+    chk.job(job_run_instruction_lemma, 'step:run_instruction lemma', pid=pid)
+    chk.job(job_on_error_lemma, 'step:on_error lemma', pid=pid)
+    chk.job(job_create_runtime_lemma, 'step:label-table lemma', n=N, pid=pid)
+    chk.bounds['step_lemmas'] = 'one fetch/execute iteration from an arbitrary state over programs of 0..%d symbolic lines; callees as arbitrary results (DESIGN.md 8.7)' % N
     chk.assumptions = ['programs are given as instruction vectors to runner::run (run_script = parse_text + run; the parser half is C01/C08)',
                        'scripted commands are harness models returning a fully symbolic CommandResult per fetch/execute iteration',
                        'runs that need more iterations than the bound are outside the claim', 'REPL mode not covered',
                        'source line numbers 1..9 symbolic per instruction, source file none or f.ds']
     results = chk.run()
     return chk.finish(results, 'every obligation is a solver query over all programs, command results and initial variables within the bounds')
+
+
+# ---------------------------------------------------------------------- step lemmas: programs and runs of any length
+EXITS = ['0', '1', '7', 'v', '-1', '00', '']
+
+
+def job_runner_step(ctx, jr, n, pid='C03'):
+    """One fetch/execute iteration of run_instructions from an ARBITRARY state (instruction index, variables, label table, shared
+    state), with run_instruction and run_on_error_instruction replaced by arbitrary results and arbitrary effects on the
+    variables. A run is the iteration of this step, so the lemma covers programs and runs of any length."""
+    from mirsym import induct
+    from .c12 import map_eq
+    jr.bounds = dict(program_lines='0..%d (symbolic length and content)' % n, instruction_index='any (0..n+2)', variables='x, y arbitrary before and after the command',
+                     labels=LABELS, command='arbitrary result and output variable', on_error='arbitrary result', halt='symbolic',
+                     claim='one-iteration lemma from an arbitrary state; a run is its iteration (DESIGN.md 8.7)')
+    e = ctx.engine(unwind=3); e.int_digits = 2
+    t0 = time.time()
+    prog = Program(e, n); nlen = e.fresh_int('program.len', 0, n)
+    instrs = prog.value(); instrs = V(nlen, instrs.it)
+    st = State(True, {})
+    def sym_vars(tag): return M([(e.fresh_bool('%s.%s.present' % (tag, k)), mk_str(k), H.sym_str(e, '%s.%s' % (tag, k), 2)) for k in OUTS])
+    V0 = sym_vars('before'); VA = sym_vars('after_cmd'); VB = sym_vars('after_on_error')
+    lab = M([(e.fresh_bool('label%d.present' % i), mk_str(l), e.fresh_int('label%d.line' % i, 0, n + 2)) for i, l in enumerate(LABELS)])
+    SVT = 'types::runtime::StateValue'; k_ = ctx.types.enums[SVT].index('String')
+    def sym_state(tag): return M([(e.fresh_bool('%s.present' % tag), mk_str('k'), E(SVT, k_, {k_: [H.sym_str(e, tag, 2)]}))])
+    S0 = sym_state('state.before'); SA = sym_state('state.after_cmd')
+    halt = e.fresh_bool('halt')
+    L = e.fresh_int('L', 0, n + 2)
+    # command result
+    rk = e.fresh_int('r.kind', 0, 4); rout = e.fresh_int('r.out', 0, len(EXITS)); rmsg = H.sym_str(e, 'r.msg', 2)
+    bylabel = e.fresh_bool('r.bylabel'); target = e.fresh_int('r.target', 0, len(TARGETS) - 1); gline = e.fresh_int('r.line', 0, n + 3)
+    ov = e.fresh_int('outvar', 0, len(OUTS))
+    out_o = opt_choose(rout, EXITS)
+    gv = E(GV, zite(bylabel, 0, 1), {0: [choose(target, TARGETS)], 1: [gline]})
+    result = E(CR, rk, {CONT: [out_o], GOTO: [out_o, gv], ERROR: [rmsg], CRASH: [rmsg], EXIT: [out_o]})
+    oe_err = e.fresh_bool('on_error.fails'); oe_msg = H.sym_str(e, 'on_error.msg', 2)
+    calls = {'cmd': [], 'oe': []}
+
+    def h_cmd(eng, st1, a, callee):
+        calls['cmd'].append((st1.g, a[4], a[5], eng.deref(st1, a[1]), eng.deref(st1, a[2])))
+        eng.store(st1, a[1], VA); eng.store(st1, a[2], SA)
+        return T([result, opt_choose(ov, OUTS)])
+
+    def h_oe(eng, st1, a, callee):
+        calls['oe'].append((st1.g, a[4], a[5], eng.deref(st1, a[1])))
+        eng.store(st1, a[1], VB)
+        return E('std::result::Result', zite(oe_err, 1, 0), {0: [UNIT], 1: [oe_msg]})
+    e.hooks['runner::run_instruction'] = h_cmd; e.hooks['runner::run_on_error_instruction'] = h_oe
+    e.hooks['std::sync::atomic::Atomic::<bool>::load'] = lambda eng, st1, a, callee: halt
+    commands = T([M([]), M([])], 'types::command::Commands')
+    context = T([V0, S0, commands], 'types::runtime::Context')
+    env = T([Opaque('out'), Opaque('err'), e.alloc(st, False)], 'types::env::Env')
+    runtime = T([some(instrs), lab, context, env], 'types::runtime::Runtime')
+    fr = induct.capture(e, 'core', 'runner::run_instructions', [runtime, L, False], st)
+    ER = ctx.types.enums['runner::EndReason']
+    obs = [(fr.st.g, zand(zeq(fr.get(fr.st, 'line'), L), zeq(fr.get(fr.st, 'end_reason').d, ER.index('ReachedEnd'))), 'entry: the run starts at the given instruction, end reason "reached end"')]
+    exits, back = fr.step(fr.st.copy())
+    goes_on = back.g if back is not None else False
+    rets = fr.returns(exits)
+    jr.symex_time += time.time() - t0
+    # ---- the step of the abstract machine of the property statement
+    live = znot(halt); fetch = zand(live, L < nlen)
+    meta_L = T([some(sel(prog.line, L, 0)), E(OPTION, zite(sel(prog.src, L, False), 1, 0), {0: [], 1: [mk_str('f.ds')]})], 'types::instruction::InstructionMetaInfo')
+
+    def upd(mv, val_o):
+        """expected variables: mv with the output variable set to val_o (Option<String>) / removed"""
+        ents = []
+        for i, (p, k, v) in enumerate(mv.ents):
+            hit = zeq(ov, i + 1)
+            ents.append((zite(hit, zeq(val_o.d, 1), p), k, merge(hit, val_o.p[1][0], v) if 1 in val_o.p else v))
+        return M(ents)
+    c_cont = zand(fetch, zeq(rk, CONT)); c_goto = zand(fetch, zeq(rk, GOTO)); c_err = zand(fetch, zeq(rk, ERROR)); c_crash = zand(fetch, zeq(rk, CRASH)); c_exit = zand(fetch, zeq(rk, EXIT))
+    lf, lline, _ = map_lookup(e, fr.st, lab, choose(target, TARGETS))
+    bad_label = zand(c_goto, bylabel, znot(lf))
+    exit_fail = zand(c_exit, zor(*[zeq(rout, i + 1) for i, x in enumerate(EXITS) if x in ('1', '7', '-1')]))
+    oe_fail = zand(c_err, oe_err)
+    fail = zor(c_crash, bad_label, exit_fail, oe_fail)
+    cont = zand(fetch, znot(fail), znot(c_exit))
+    obs.append((True, zeq(goes_on, cont), 'the run goes on exactly when the machine does'))
+    for g_, ins, ln, vbefore, sbefore in calls['cmd']:
+        obs.append((g_, zand(fetch, zeq(ln, L), deep_eq(ins, sel_item(instrs, L)), map_eq(e, fr.st, vbefore, V0), map_eq(e, fr.st, sbefore, S0)),
+                    'the command is started only for an existing instruction, with that instruction, its index and the current variables and state'))
+    obs.append((fetch, zor(*[g_ for g_, *_ in calls['cmd']]) if calls['cmd'] else False, 'every fetched instruction is executed'))
+    obs.append((True, len(calls['cmd']) <= 1, 'one instruction per iteration'))
+    for g_, msg, mt, vb in calls['oe']:
+        obs.append((g_, zand(c_err, str_eq(msg, rmsg), deep_eq(mt, meta_L), map_eq(e, fr.st, vb, upd(VA, some(mk_str('false'))))),
+                    'the error handler runs only for a reported error, with its message, the position of the failing instruction and the output variable already set to false'))
+    obs.append((c_err, zor(*[g_ for g_, *_ in calls['oe']]) if calls['oe'] else False, 'every reported error reaches the error handler'))
+    if back is not None:
+        rt2 = fr.get(back, 'runtime'); v2 = rt2.f[2].f[0]
+        newline = zite(zand(c_goto, bylabel), lline if lline is not POISON else 0, zite(c_goto, gline, L + 1))
+        obs.append((back.g, zeq(fr.get(back, 'line'), newline), 'next instruction: target of a goto, otherwise the following one'))
+        exp_vars = merge(c_err, VB, upd(VA, out_o))
+        obs.append((back.g, map_eq(e, back, v2, exp_vars), 'variables: what the command left, with the output variable set to the output (removed when none)'))
+        obs.append((back.g, map_eq(e, back, fr.get(back, 'state'), SA), 'the shared state is what the command left'))
+        obs.append((back.g, zand(deep_eq(rt2.f[0], some(instrs)), map_eq(e, back, rt2.f[1], lab)), 'program and label table are unchanged'))
+    RUNTIME = ctx.types.enums['types::error::ScriptError'].index('Runtime')
+    for rs, rv in rets:
+        okc = zeq(rv.d, 0)
+        obs.append((rs.g, zeq(okc, znot(fail)), 'the run fails exactly when the machine does'))
+        if 0 in rv.p:
+            cx, er = rv.p[0][0].f
+            obs.append((zand(rs.g, halt), zand(okc, zeq(er.d, ER.index('Halted')), map_eq(e, rs, cx.f[0], V0), map_eq(e, rs, cx.f[1], S0)), 'halt: the run ends at once with the variables and state as they are'))
+            obs.append((zand(rs.g, live, L >= nlen), zand(okc, zeq(er.d, ER.index('ReachedEnd')), map_eq(e, rs, cx.f[0], V0), map_eq(e, rs, cx.f[1], S0)), 'past the last instruction: the run ends normally'))
+            obs.append((zand(rs.g, c_exit, znot(exit_fail)), zand(okc, zeq(er.d, ER.index('ExitCalled')), map_eq(e, rs, cx.f[0], upd(VA, out_o)), map_eq(e, rs, cx.f[1], SA)), 'exit: the run ends with the output stored'))
+        if 1 in rv.p and RUNTIME in rv.p[1][0].p:
+            msg, meta_o = rv.p[1][0].p[RUNTIME]
+            obs.append((zand(rs.g, fail), zand(zeq(rv.p[1][0].d, RUNTIME), zeq(meta_o.d, 1), deep_eq(meta_o.p[1][0], meta_L) if 1 in meta_o.p else False),
+                        'a failure is a Runtime error carrying line and source of the failing instruction'))
+            obs.append((zand(rs.g, c_crash), str_eq(msg, rmsg), 'a crash carries the message of the command'))
+            obs.append((zand(rs.g, oe_fail), str_eq(msg, oe_msg), 'a failing error handler ends the run with its message'))
+    for g, cnd, msg in obs: e.obligations.append(Obligation(g, cnd, '%s runner step: %s' % (pid, msg), 'assert', 'oracle'))
+
+    def extract(m, o=None):
+        return dict(kind='lemma', fn='run_instructions', L=solve.model_int(m, L), program_len=solve.model_int(m, nlen), result_kind=solve.model_int(m, rk), halt=solve.model_bool(m, halt))
+    res = discharge_known(e, jr, pid, {}, extract)
+    witness(jr, e, 'runner step: goto by label continues', zand(goes_on, c_goto, bylabel), extract)
+    witness(jr, e, 'runner step: exit with a non-zero code fails', exit_fail, extract)
+    H.finish_job(jr, e, res)
+
+
+def sel_item(v, idx):
+    """v[idx] for a symbolic index (merge over the cells)"""
+    r = v.it[-1]
+    for i in range(len(v.it) - 2, -1, -1): r = merge(zeq(idx, i), v.it[i], r)
+    return r
+
+
+def job_run_instruction_lemma(ctx, jr, pid='C03'):
+    """run_instruction (straight-line) on an arbitrary instruction, with argument binding replaced by an arbitrary list."""
+    jr.bounds = dict(instruction='arbitrary (empty / directive / script with optional label, output, command c | nope | none)', binding='arbitrary list of 0..2 values', command='arbitrary result')
+    e = ctx.engine(unwind=3); t0 = time.time()
+    prog = Program(e, 1)
+    kind3 = e.fresh_int('kind', 0, 2)      # 0 empty, 1 directive, 2 script
+    ins0 = prog.value().it[0]
+    si = ins0.f[1].p[2][0]
+    pre = T([some(mk_str('p')), none()], 'types::instruction::PreProcessInstruction')
+    ins = T([ins0.f[0], E('types::instruction::InstructionType', kind3, {0: [], 1: [pre], 2: [si]})], 'types::instruction::Instruction')
+    argv = V(e.fresh_int('bound.n', 0, 2), [H.sym_str(e, 'bound%d' % i, 2) for i in range(2)])
+    L = e.fresh_int('L', 0, 1000)
+    rk = e.fresh_int('r.kind', 0, 4); rmsg = H.sym_str(e, 'r.msg', 2)
+    out_o = E(OPTION, zite(e.fresh_bool('r.out.present'), 1, 0), {0: [], 1: [H.sym_str(e, 'r.out', 2)]})
+    result = E(CR, rk, {CONT: [out_o], GOTO: [out_o, E(GV, 1, {1: [e.fresh_int('r.line', 0, 9)]})], ERROR: [rmsg], CRASH: [rmsg], EXIT: [out_o]})
+    calls = {'bind': [], 'run': []}
+    st = State(True, {})
+
+    def h_bind(eng, st1, a, callee):
+        calls['bind'].append((st1.g, eng.deref(st1, a[1]), eng.deref(st1, a[2]))); return argv
+
+    def h_run(eng, st1, a):
+        c = a[1]; calls['run'].append((st1.g, c.f[0], c.f[3], c.f[6], c.f[2], c.f[1])); return result
+    e.hooks['runner::bind_command_arguments'] = h_bind
+    e.dyn_impls[('harness::Scripted', 'run')] = h_run
+    e.dyn_impls[('harness::Scripted', 'clone_and_box')] = lambda eng, st1, a: eng.alloc(st1, a[0])
+    c_box = e.alloc(st, T([], 'harness::Scripted'))
+    st.m[(0, 'commands')] = T([M([(True, mk_str('c'), c_box)]), M([])], 'types::command::Commands')
+    st.m[(0, 'vars')] = M([(e.fresh_bool('x.present'), mk_str('x'), H.sym_str(e, 'x', 2))])
+    st.m[(0, 'state')] = M([]); st.m[(0, 'env')] = T([Opaque('out'), Opaque('err'), e.alloc(st, False)], 'types::env::Env')
+    rs, rv = e.run('core', 'runner::run_instruction', [P(0, 'commands'), P(0, 'vars'), P(0, 'state'), V(0, []), ins, L, P(0, 'env')], st)
+    jr.symex_time += time.time() - t0
+    res_, outv = rv.f
+    is_script = zeq(kind3, 2); cmd = prog.cmd[0]
+    invoked = zand(is_script, zeq(cmd, 1))
+    obs = []
+    obs.append((zand(rs.g, znot(is_script)), zand(zeq(res_.d, CONT), zeq(res_.p[CONT][0].d, 0), zeq(outv.d, 0)), 'an empty line or a directive does nothing and has no output variable'))
+    obs.append((zand(rs.g, is_script), deep_eq(outv, si.f[1]), 'the output variable is the one written on the line'))
+    obs.append((zand(rs.g, is_script, zeq(cmd, 0)), zand(zeq(res_.d, CONT), zeq(res_.p[CONT][0].d, 0)), 'a line without command continues with no output'))
+    obs.append((zand(rs.g, is_script, zeq(cmd, 2)), zand(zeq(res_.d, CRASH), str_eq(res_.p[CRASH][0], mk_str('Command: nope not found.'))), 'an unknown command is a crash naming it'))
+    obs.append((zand(rs.g, invoked), deep_eq(res_, result), 'the result of the command is passed on unchanged'))
+    obs.append((invoked, zor(*[g_ for g_, *_ in calls['run']]) if calls['run'] else False, 'a known command is invoked'))
+    obs.append((True, len(calls['run']) <= 1 and len(calls['bind']) <= 1, 'at most one invocation'))
+    for g_, args, ovar, ln, vars_p, state_p in calls['run']:
+        obs.append((g_, zand(invoked, deep_eq(args, argv), deep_eq(ovar, si.f[1]), zeq(ln, L)), 'the command sees the bound arguments, the output variable name and its own instruction index'))
+        obs.append((g_, isinstance(vars_p, P) and vars_p.loc == 'vars' and isinstance(state_p, P) and state_p.loc == 'state', 'the command works on the variables and state of the caller'))
+    for g_, sinst, meta in calls['bind']:
+        obs.append((g_, zand(invoked, deep_eq(sinst, si), deep_eq(meta, ins.f[0])), 'arguments are bound from this instruction'))
+    for g, cnd, msg in obs: e.obligations.append(Obligation(g, cnd, '%s run_instruction lemma: %s' % (pid, msg), 'assert', 'oracle'))
+
+    def extract(m, o=None): return dict(kind='lemma', fn='run_instruction', instruction_kind=solve.model_int(m, kind3))
+    res = discharge_known(e, jr, pid, {}, extract)
+    witness(jr, e, 'run_instruction: a known command is invoked', zand(rs.g, invoked), extract)
+    H.finish_job(jr, e, res)
+
+
+def job_on_error_lemma(ctx, jr, pid='C03'):
+    """run_on_error_instruction (straight-line) with run_instruction replaced by an arbitrary result."""
+    jr.bounds = dict(on_error='registered or not', handler_result='arbitrary', message='<= 3 chars', position='arbitrary line (or none) and source (or none)')
+    e = ctx.engine(unwind=3); e.int_digits = 3; t0 = time.time()
+    has = e.fresh_bool('has_on_error')
+    msg = H.sym_str(e, 'error', 3)
+    line_o = E(OPTION, zite(e.fresh_bool('line.present'), 1, 0), {0: [], 1: [e.fresh_int('line', 0, 999)]})
+    src_o = E(OPTION, zite(e.fresh_bool('source.present'), 1, 0), {0: [], 1: [H.sym_str(e, 'source', 3)]})
+    meta = T([line_o, src_o], 'types::instruction::InstructionMetaInfo')
+    rk = e.fresh_int('r.kind', 0, 4); rmsg = H.sym_str(e, 'r.msg', 2)
+    out_o = E(OPTION, zite(e.fresh_bool('r.out.present'), 1, 0), {0: [], 1: [H.sym_str(e, 'r.out', 2)]})
+    result = E(CR, rk, {CONT: [out_o], GOTO: [out_o, E(GV, 1, {1: [0]})], ERROR: [rmsg], CRASH: [rmsg], EXIT: [out_o]})
+    ov = E(OPTION, zite(e.fresh_bool('outvar.present'), 1, 0), {0: [], 1: [mk_str('x')]})
+    calls = []
+    st = State(True, {})
+
+    def h_cmd(eng, st1, a, callee):
+        calls.append((st1.g, a[4], a[5])); return T([result, ov])
+    e.hooks['runner::run_instruction'] = h_cmd
+    box = e.alloc(st, T([], 'harness::OnError'))
+    st.m[(0, 'commands')] = T([M([(has, mk_str('on_error'), box)]), M([])], 'types::command::Commands')
+    V0 = M([(e.fresh_bool('x.present'), mk_str('x'), H.sym_str(e, 'x', 2))])
+    st.m[(0, 'vars')] = V0; st.m[(0, 'state')] = M([]); st.m[(0, 'env')] = T([Opaque('out'), Opaque('err'), e.alloc(st, False)], 'types::env::Env')
+    rs, rv = e.run('core', 'runner::run_on_error_instruction', [P(0, 'commands'), P(0, 'vars'), P(0, 'state'), V(0, []), msg, meta, P(0, 'env')], st)
+    jr.symex_time += time.time() - t0
+    from mirsym.models import int_to_str
+    from .c12 import map_eq
+    obs = [(has, zor(*[g_ for g_, _, _ in calls]) if calls else False, 'a registered error handler is invoked'), (True, len(calls) <= 1, 'once')]
+    for g_, ins, ln in calls:
+        si = ins.f[1].p[2][0] if 2 in ins.f[1].p else None
+        exp_line = int_to_str(e, rs, zite(zeq(line_o.d, 1), line_o.p[1][0], 0))
+        exp_src = merge(zeq(src_o.d, 1), src_o.p[1][0], S(0, []))
+        obs.append((g_, False if si is None else zand(has, zeq(ins.f[1].d, 2), opt_eq_str(si.f[2], True, mk_str('on_error')), zeq(si.f[3].d, 1), zeq(si.f[3].p[1][0].len, 3),
+                                                      str_eq(si.f[3].p[1][0].it[0], msg), str_eq(si.f[3].p[1][0].it[1], exp_line), str_eq(si.f[3].p[1][0].it[2], exp_src)),
+                    'the handler is invoked only when registered, as on_error <message> <line or 0> <source or empty>'))
+    vars_after = e.read(rs, ('mem', 0, 'vars', []))
+    is_exit = zand(has, zeq(rk, EXIT)); is_crash = zand(has, zeq(rk, CRASH))
+    obs.append((zand(rs.g, znot(has)), zand(zeq(rv.d, 0), map_eq(e, rs, vars_after, V0)), 'no handler: nothing happens'))
+    obs.append((zand(rs.g, has, znot(is_exit), znot(is_crash)), zeq(rv.d, 0), 'a handler that continues (or reports an error itself) lets the script go on'))
+    if 1 in rv.p:
+        obs.append((zand(rs.g, is_exit), zand(zeq(rv.d, 1), str_eq(rv.p[1][0], mk_str('Exiting Script.'))), 'a handler that exits ends the script'))
+        obs.append((zand(rs.g, is_crash), zand(zeq(rv.d, 1), str_eq(rv.p[1][0], rmsg)), 'a handler that crashes ends the script with its message'))
+    else: obs.append((zand(rs.g, zor(is_exit, is_crash)), False, 'exit / crash of the handler end the script'))
+    for g, cnd, m_ in obs: e.obligations.append(Obligation(g, cnd, '%s on_error lemma: %s' % (pid, m_), 'assert', 'oracle'))
+
+    def extract(m, o=None): return dict(kind='lemma', fn='run_on_error_instruction', has_on_error=solve.model_bool(m, has), result_kind=solve.model_int(m, rk))
+    res = discharge_known(e, jr, pid, {}, extract)
+    witness(jr, e, 'on_error lemma: handler exits', zand(rs.g, is_exit), extract)
+    H.finish_job(jr, e, res)
+
+
+def job_create_runtime_lemma(ctx, jr, n, pid='C03'):
+    """the label table: one iteration of the loop of create_runtime from an arbitrary table and position"""
+    from mirsym import induct
+    from .c12 import map_eq
+    jr.bounds = dict(program_lines='0..%d' % n, position='any', label_table='arbitrary before the iteration', labels=LABELS)
+    e = ctx.engine(unwind=3); t0 = time.time()
+    prog = Program(e, n); nlen = e.fresh_int('program.len', 0, n)
+    instrs = V(nlen, prog.value().it)
+    st = State(True, {})
+    context = T([M([]), M([]), T([M([]), M([])], 'types::command::Commands')], 'types::runtime::Context')
+    env = some(T([Opaque('out'), Opaque('err'), e.alloc(st, False)], 'types::env::Env'))
+    fr = induct.capture(e, 'core', 'runner::create_runtime', [instrs, context, env], st)
+    it0 = fr.get(fr.st, 'iter'); rt0 = fr.get(fr.st, 'runtime')
+    obs = [(fr.st.g, zand(zeq(fr.get(fr.st, 'line'), 0), zeq(it0.f[1], 0), map_eq(e, fr.st, rt0.f[1], M([]))), 'entry: empty label table, position 0')]
+    k = e.fresh_int('k', 0, n); e.assume(k <= nlen)
+    lab = M([(e.fresh_bool('label%d.present' % i), mk_str(l), e.fresh_int('label%d.line' % i, 0, n)) for i, l in enumerate(LABELS)])
+    st1 = fr.state(True, line=k, iter=T([it0.f[0], k] + list(it0.f[2:]), it0.ty), runtime=T([rt0.f[0], lab] + list(rt0.f[2:]), rt0.ty))
+    exits, back = fr.step(st1)
+    goes_on = back.g if back is not None else False
+    obs.append((True, zeq(goes_on, k < nlen), 'one iteration per instruction'))
+    if back is not None:
+        lab2 = fr.get(back, 'runtime').f[1]
+        kind = sel(prog.kind, k, 0); lb = sel(prog.label, k, 0)
+        ents = []
+        for i, (p, key, v) in enumerate(lab.ents):
+            hit = zand(zeq(kind, 1), zeq(lb, i + 1))
+            ents.append((zor(p, hit), key, zite(hit, k, v)))
+        obs.append((back.g, zand(map_eq(e, back, lab2, M(ents)), zeq(fr.get(back, 'line'), k + 1), zeq(fr.get(back, 'iter').f[1], k + 1)),
+                    'a labelled instruction at position k maps its label to k (a later duplicate wins); nothing else changes'))
+    for rs, rv in fr.returns(exits):
+        obs.append((rs.g, zand(deep_eq(rv.f[0], some(instrs)), map_eq(e, rs, rv.f[1], lab)), 'the runtime holds the program and the table built so far'))
+    for g, cnd, m_ in obs: e.obligations.append(Obligation(g, cnd, '%s label-table lemma: %s' % (pid, m_), 'assert', 'oracle'))
+
+    def extract(m, o=None): return dict(kind='lemma', fn='create_runtime', k=solve.model_int(m, k), program_len=solve.model_int(m, nlen))
+    jr.symex_time += time.time() - t0
+    res = discharge_known(e, jr, pid, {}, extract)
+    witness(jr, e, 'label-table lemma: a duplicate label is overwritten', zand(goes_on, lab.ents[0][0], zeq(sel(prog.kind, k, 0), 1), zeq(sel(prog.label, k, 0), 1)), extract)
+    H.finish_job(jr, e, res)
